@@ -175,6 +175,17 @@ func sessionC20(r *vk.Run, rng *rand.Rand, wkr, idx int) {
 			burstMode = "burst"
 		}
 		var posts []string
+		if !concurrent && !hidden && rng.Intn(8) == 0 {
+			// scripted: the window is hidden through its options, the query or the selection changes while
+			// the cursor stays where it is, the window is shown again: the command has to run for the new state
+			edit := []string{"put(a)", "put(1)", "backward-delete-char", "put( )"}[rng.Intn(4)]
+			if multi && rng.Intn(2) == 0 {
+				edit = "toggle"
+			}
+			posts = []string{"change-preview-window(hidden)", edit, "change-preview-window(" + []string{"nohidden", "nohidden,up,50%", "nohidden,right,40%"}[rng.Intn(3)] + ")"}
+			kinds["hide-edit-show"] = true
+			burst = 0
+		}
 		for b := 0; b < burst; b++ {
 			var a string
 			switch c := rng.Intn(15); {
